@@ -130,6 +130,12 @@ M = [
  ("shift-keeps-subtime", ["C09"], "mosaik/scenario.py",
   "        cutoff = 1\n    return TieredInterval(*list_tiers, cutoff=cutoff, pre_length=pre_length)", "        pass\n    return TieredInterval(*list_tiers, cutoff=cutoff, pre_length=pre_length)",
   "reverts 3e5c08a: time-shifted connections keep the source's sub-time"),
+ ("first-model-kinds", ["C03", "C02"], "mosaik/scenario.py",
+  "    def is_persistent(self, attr: Attr) -> bool:\n        return attr in self.model_mock.measurement_outputs", "    def is_persistent(self, attr: Attr) -> bool:\n        return attr in next(iter(self.model_mock._factory.models.values())).measurement_outputs",
+  "persistent/non-persistent classification taken from the simulator's first model for all its entities"),
+ ("first-model-trigger", ["C02", "C03"], "mosaik/scenario.py",
+  "    def triggered_by(self, attr: Attr) -> bool:\n        return attr in self.model_mock.event_inputs", "    def triggered_by(self, attr: Attr) -> bool:\n        return attr in next(iter(self.model_mock._factory.models.values())).event_inputs",
+  "trigger classification taken from the simulator's first model for all its entities"),
 ]
 
 def main():
